@@ -8,7 +8,7 @@ Anything else raises ExtractError => the check exits 2 (undecided).
 
 DROPPED: comments and doc comments; outer attributes except `#[derive(..)]` restricted to
 Clone/Copy/PartialEq/Eq (Debug, Hash, Default, serde, Is, PartialOrd ... are dropped);
-`crate::` / `super::` / `self::` path prefixes with the lower-case module segments after them;
+`crate::` / `super::` / `self::` / `harper_core::` path prefixes with the lower-case module segments after them;
 `pub(crate)`/`pub(super)` -> `pub`.
 """
 import hashlib
@@ -103,10 +103,10 @@ def _clean_tokens(rf, ed, lo, hi, attrs=(), inner_attrs_ok=False, keep_derive=KE
     ci = lo
     while ci < hi:
         t = rf.ct(ci)
-        if t.kind == 'ident' and t.text in ('crate', 'super', 'self') and ci + 1 < hi and rf.ct(ci + 1).text == '::' \
+        if t.kind == 'ident' and t.text in ('crate', 'super', 'self', 'harper_core') and ci + 1 < hi and rf.ct(ci + 1).text == '::' \
                 and (ci == lo or rf.ct(ci - 1).text != '::'):
             j = ci
-            while j + 2 < hi and rf.ct(j).text in ('crate', 'super', 'self') and rf.ct(j + 1).text == '::':
+            while j + 2 < hi and rf.ct(j).text in ('crate', 'super', 'self', 'harper_core') and rf.ct(j + 1).text == '::':
                 j += 2
             while j + 2 < hi and rf.ct(j).kind == 'ident' and rf.ct(j).text[0].islower() and rf.ct(j + 1).text == '::' \
                     and rf.ct(j + 2).kind == 'ident':
@@ -134,7 +134,7 @@ class FnSplicer:
     def splice(self):
         rf, it, spec = self.rf, self.it, self.spec
         known = {'result', 'requires', 'ensures', 'decreases', 'loops', 'proofs', 'closures', 'props', 'note',
-                 'unroll_fn_array', 'opens_invariants', 'no_unwind', 'external_body', 'returns', 'mode_attr', 'assumed', 'slice_matches', 'retain', 'take_while_count', 'proved_in', 'rev_find', 'filter_map_collect', 'map_sum'}
+                 'unroll_fn_array', 'opens_invariants', 'no_unwind', 'external_body', 'returns', 'mode_attr', 'assumed', 'slice_matches', 'retain', 'take_while_count', 'proved_in', 'rev_find', 'filter_map_collect', 'map_sum', 'for_each'}
         bad = set(spec) - known
         if bad:
             raise ExtractError(f'unknown spec keys {bad}')
@@ -205,6 +205,8 @@ class FnSplicer:
             self._r12(dict(spec['filter_map_collect']))
         if spec.get('map_sum'):
             self._r13(dict(spec['map_sum']))
+        if spec.get('for_each'):
+            self._r14(list(spec['for_each']))
         # --- proof / ghost insertions
         for p in spec.get('proofs', []):
             self._splice_proof(p, loops)
@@ -345,12 +347,14 @@ class FnSplicer:
             self.desugared.append({'rule': 'R8', 'loop': n, 'before': before, 'after': new_head + ' .. } }'})
             return
         if d == 'R10':
-            # for LABEL in E.split(|C| PRED) { BODY }   (E a plain identifier naming a slice; BODY without break/continue)  =>
-            # { let mut __s: usize = 0; loop { let mut __e: usize = __s;
+            # for LABEL in E.split(|C| PRED) { BODY }   (E a plain identifier naming a slice)  =>
+            # { let mut __s: usize = 0; let mut __fin: bool = false; loop { if __fin { break; } let mut __e: usize = __s;
             #     loop { if __e >= E.len() { break; } let C = &E[__e]; if PRED { break; } __e += 1; }
-            #     let LABEL = &E[__s..__e]; BODY if __e >= E.len() { break; } __s = __e + 1; } }
+            #     let LABEL = &E[__s..__e]; let ghost __ls = __s; if __e >= E.len() { __fin = true; } else { __s = __e + 1; } BODY } }
             # -- the definition of slice::split: the maximal sub-slices between the elements that satisfy PRED, in order,
-            # including the (possibly empty) piece after the last separator. PRED and BODY are left untouched.
+            # including the (possibly empty) piece after the last separator. The iterator is advanced BEFORE the body runs (as
+            # Iterator::next does), so `continue`, `break` and `return` inside BODY keep their meaning. PRED and BODY are left
+            # untouched; `__ls` (ghost) is the start of the current piece.
             kw = rf.ct(kwci)
             if kw.text != 'for' or rf.ct(kwci + 1).kind != 'ident' or rf.ct(kwci + 2).text != 'in':
                 raise ExtractError(f'{self._where()}: R10 needs `for label in e.split(|c| ..)`')
@@ -365,19 +369,20 @@ class FnSplicer:
                 raise ExtractError(f'{self._where()}: R10: tokens between split(..) and the loop body')
             PRED = rf.spaced(k + 7, cp).strip()
             for j in range(obrace + 1, cbrace):
-                if rf.ct(j).kind == 'ident' and rf.ct(j).text in ('break', 'continue'):
-                    raise ExtractError(f'{self._where()}: R10: loop body contains break/continue')
-            if rf.ct(cbrace - 1).text not in (';', '}'):
-                raise ExtractError(f'{self._where()}: R10: loop body ends in an expression')
+                if rf.ct(j).kind == 'lifetime':
+                    raise ExtractError(f'{self._where()}: R10: labelled break/continue in the loop body')
+            ls2 = dict(ls); ls2['invariant'] = [f'__s <= {E}@.len()'] + list(ls.get('invariant', []))
+            ls2['decreases'] = f'(if __fin {{ 0int }} else {{ {E}@.len() - __s + 1 }})'
+            clauses = self._clauses(ls2)
             before = rf.spaced(kwci, obrace + 1)
             scan = (f'let mut __e: usize = __s; loop\ninvariant __s <= __e <= {E}@.len(),\ndecreases {E}@.len() - __e,\n'
                     f'{{ if __e >= {E}.len() {{ break; }} let {C} = &{E}[__e]; if {PRED} {{ break; }} __e += 1; }}')
-            new_head = f'{{ let mut __s: usize = 0; loop\n{clauses}{{ {scan} let {LABEL} = &{E}[__s..__e];'
+            adv = f'let {LABEL} = &{E}[__s..__e]; let ghost __ls = __s; if __e >= {E}.len() {{ __fin = true; }} else {{ __s = __e + 1; }}'
+            new_head = f'{{ let mut __s: usize = 0; let mut __fin: bool = false; loop\n{clauses}{{ if __fin {{ break; }} {scan} {adv}'
             self.ed.replace(kw.start, rf.ct(obrace).end, new_head)
-            self.ed.insert(rf.ct(cbrace).start, f' if __e >= {E}.len() {{ break; }} __s = __e + 1; ', 1)
             self.ed.insert(rf.ct(cbrace).end, ' }', 1)
             self.desugared.append({'rule': 'R10', 'loop': n, 'before': ' '.join(before.split()),
-                                   'after': f'{{ let mut __s: usize = 0; loop {{ let mut __e: usize = __s; loop {{ if __e >= {E}.len() {{ break; }} let {C} = &{E}[__e]; if {PRED} {{ break; }} __e += 1; }} let {LABEL} = &{E}[__s..__e]; .. if __e >= {E}.len() {{ break; }} __s = __e + 1; }} }}'})
+                                   'after': f'{{ let mut __s: usize = 0; let mut __fin: bool = false; loop {{ if __fin {{ break; }} let mut __e: usize = __s; loop {{ if __e >= {E}.len() {{ break; }} let {C} = &{E}[__e]; if {PRED} {{ break; }} __e += 1; }} {adv} .. }} }}'})
             return
         if d:
             raise ExtractError(f'unknown desugaring {d}')
@@ -683,6 +688,43 @@ class FnSplicer:
             ci += 1
         if found != 1:
             raise ExtractError(f'{self._where()}: R13 needs exactly one `let x: T = e.iter().map(|c| ..).sum();` (found {found})')
+
+    def _r14(self, cfgs):
+        """R14: `PLACE.iter_mut().for_each(|T| BODY)` (PLACE a plain path; the n-th occurrence takes the n-th spec) =>
+        `{ let mut __i: usize = 0; while __i < PLACE.len() { let T = &mut PLACE[__i]; __i += 1; BODY; } }`
+        -- slice::IterMut visits every element once, in order, and for_each calls the closure on each. BODY is left untouched."""
+        rf, it = self.rf, self.it
+        ci = it.body[0] + 1; end = it.body[1]; found = 0
+        while ci < end:
+            if rf.ct(ci).kind == 'ident' and rf.ct(ci - 1).text in (';', '{', '}'):
+                j = ci
+                while j + 3 < end and rf.ct(j).kind == 'ident' and rf.ct(j + 1).text == '.' and rf.ct(j + 2).kind == 'ident' and rf.ct(j + 2).text != 'iter_mut':
+                    j += 2
+                if j + 12 < end and rf.ct(j).kind == 'ident' and [rf.ct(j + k).text for k in range(1, 9)] == ['.', 'iter_mut', '(', ')', '.', 'for_each', '(', '|'] \
+                        and rf.ct(j + 9).kind == 'ident' and rf.ct(j + 10).text == '|':
+                    if found >= len(cfgs):
+                        raise ExtractError(f'{self._where()}: R14: more `.iter_mut().for_each(..)` statements than specs')
+                    cfg = dict(cfgs[found])
+                    bad = set(cfg) - {'invariant', 'decreases', 'body_proof'}
+                    if bad:
+                        raise ExtractError(f'unknown for_each spec keys {bad}')
+                    PLACE = ''.join(rf.ct(k).text for k in range(ci, j + 1))
+                    T = rf.ct(j + 9).text
+                    op = j + 7; cp = rf.match(op)
+                    BODY = rf.spaced(j + 11, cp).strip()
+                    clauses = self._clauses({'invariant': [f'__i <= {PLACE}@.len()'] + list(cfg.get('invariant', [])), 'decreases': f'{PLACE}@.len() - __i'})
+                    bp = ('proof { ' + cfg['body_proof'] + ' } ') if cfg.get('body_proof') else ''
+                    before = rf.spaced(ci, cp + 1)
+                    after = f'{{ let mut __i: usize = 0; while __i < {PLACE}.len()\n{clauses}{{ let {T} = &mut {PLACE}[__i]; __i += 1; {bp}{BODY}; }} }}'
+                    self.ed.replace(rf.ct(ci).start, rf.ct(cp).end, after)
+                    self.desugared.append({'rule': 'R14', 'before': ' '.join(before.split()),
+                                           'after': f'{{ let mut __i: usize = 0; while __i < {PLACE}.len() {{ let {T} = &mut {PLACE}[__i]; __i += 1; {BODY}; }} }}'})
+                    found += 1
+                    ci = cp + 1
+                    continue
+            ci += 1
+        if found != len(cfgs):
+            raise ExtractError(f'{self._where()}: R14: {len(cfgs)} specs for {found} `.iter_mut().for_each(..)` statements')
 
     def _splice_proof(self, p, loops):
         rf, it = self.rf, self.it
